@@ -1,6 +1,8 @@
 /-
 C06 helper lemmas, part C1: every spelling of the literal grammar denotes, in the model of
-`compiler.parse`/`NumInfo.decimal`, exactly the value the spec assigns to it.
+`compiler.parse`/`NumInfo.decimal`, exactly the value the spec assigns to it (`literal_value`,
+`literal_litValue`); outside the exponent window it is an error (`literal_window_error`); whatever
+is accepted has the spec's value, up to the 34-digit product (`literal_sound`).
 Core Lean (`Rat` is core); single Mathlib modules may be imported here if really needed.
 The supporting lemmas are in `Proofs/NumValLitAux.lean`.
 -/
@@ -23,7 +25,7 @@ theorem literal_value (l : Lit) (hwf : l.wf = true) (hw : l.inWindow) (hi : l.si
     (hf : l.siFits prec) :
     ∃ n, readValue l.kind l.spell = .ok n ∧ n.k = l.kind ∧ toRat n.d = l.denote := by
   cases l with
-  | dec ds => exact lit_dec ds hwf
+  | dec ds => exact lit_dec ds hwf hw
   | bin ds => exact lit_bin ds hwf
   | oct ds => exact lit_oct ds hwf
   | hex u ds => exact lit_hex u ds hwf
@@ -32,6 +34,21 @@ theorem literal_value (l : Lit) (hwf : l.wf = true) (hw : l.inWindow) (hi : l.si
   | fPoint ip fp ex => exact lit_fPoint ip fp ex hwf hw
   | fExp ip ex => exact lit_fExp ip ex hwf hw
   | fDot fp ex => exact lit_fDot fp ex hwf hw
+
+/-- outside the exponent window of the decimal package the literal is an ERROR, never a wrong
+value (the spec's implementation restriction allows the error) -/
+theorem literal_window_error (l : Lit) (hwf : l.wf = true) (hw : ¬ l.inWindow) :
+    readValue l.kind l.spell = .err := by
+  cases l with
+  | dec ds => exact lit_dec_out ds hwf hw
+  | bin ds => exact absurd (show (Lit.bin ds).inWindow from window_prefixed) hw
+  | oct ds => exact absurd (show (Lit.oct ds).inWindow from window_prefixed) hw
+  | hex u ds => exact absurd (show (Lit.hex u ds).inWindow from window_prefixed) hw
+  | si ip fp m => exact lit_si_out ip fp m hwf hw
+  | siDot fp m => exact lit_siDot_out fp m hwf hw
+  | fPoint ip fp ex => exact lit_fPoint_out ip fp ex hwf hw
+  | fExp ip ex => exact lit_fExp_out ip ex hwf hw
+  | fDot fp ex => exact lit_fDot_out fp ex hwf hw
 
 /-- the scanner gate accepts every grammar spelling with the grammar's kind, except the
 `si_lit`s with a superfluous leading zero -/
@@ -50,6 +67,53 @@ theorem literal_litValue (l : Lit) (hwf : l.wf = true) (hz : l.siLeadingZero = f
   unfold litValue
   rw [literal_accepted l hwf hz]
   exact this
+
+/-- an accepted multiplied spelling whose product fits the precision is integral -/
+theorem literal_integral (l : Lit) (hwf : l.wf = true) (hw : l.inWindow)
+    (hf : l.siFits prec) (n : Num) (h : readValue l.kind l.spell = .ok n) : l.siIntegral := by
+  cases l with
+  | si ip fp m => exact lit_si_integral ip fp m hwf hw hf n h
+  | siDot fp m => exact lit_siDot_integral fp m hwf hw hf n h
+  | _ => trivial
+
+/-- soundness of the value reader: whatever it accepts has the spec's value -/
+theorem literal_read_sound (l : Lit) (hwf : l.wf = true) (hf : l.siFits prec) (n : Num)
+    (h : readValue l.kind l.spell = .ok n) : n.k = l.kind ∧ toRat n.d = l.denote := by
+  by_cases hw : l.inWindow
+  · have hi := literal_integral l hwf hw hf n h
+    obtain ⟨n', h1, h2, h3⟩ := literal_value l hwf hw hi hf
+    rw [h1] at h
+    injection h with h
+    subst h
+    exact ⟨h2, h3⟩
+  · rw [literal_window_error l hwf hw] at h
+    cases h
+
+/-- soundness of `compiler.parse` on the grammar's spellings: whenever a spelling is accepted its
+kind and value are the spec's; the only excluded region is a multiplied mantissa of more than 34
+significant digits (`literal_false_round`).  Rejections (`literal_false_trunc`, leading zeros,
+the exponent window) are not wrong values. -/
+theorem literal_sound (l : Lit) (hwf : l.wf = true) (hf : l.siFits prec) (n : Num)
+    (h : litValue l.spell = .ok n) : n.k = l.kind ∧ toRat n.d = l.denote := by
+  unfold litValue at h
+  cases hk : NumLit.parseNumUnsigned l.spell with
+  | none => rw [hk] at h; cases h
+  | some k =>
+    rw [hk] at h
+    have hk' : readValue k l.spell = readValue l.kind l.spell := by
+      cases hz : l.siLeadingZero with
+      | false =>
+        have := literal_accepted l hwf hz
+        rw [this] at hk
+        injection hk with hk
+        rw [hk]
+      | true =>
+        cases l with
+        | si ip fp m => exact readValue_si_kind k ip fp m hwf
+        | _ => simp [Lit.siLeadingZero] at hz
+    have h' : readValue k l.spell = .ok n := h
+    rw [hk'] at h'
+    exact literal_read_sound l hwf hf n h'
 
 /-- full statement: every grammar spelling is accepted and denotes the spec's value -/
 def literal_stmt : Prop :=
@@ -75,29 +139,15 @@ theorem literal_false_trunc :
     · simp; grind
   simp [truncNonneg, this]
 
-/-- `1e100001` silently denotes 1 -/
-theorem literal_false_exponent :
-    litValue (Lit.fExp [49] ⟨false, .none, [49, 48, 48, 48, 48, 49]⟩).spell = .ok ⟨.float, ⟨1, 0⟩⟩ ∧
-    (Lit.fExp [49] ⟨false, .none, [49, 48, 48, 48, 48, 49]⟩).denote ≠ 1 := by
-  refine ⟨by decide, ?_⟩
-  have a : digitsVal 10 [49] = 1 := by decide
-  have b : digitsVal 10 [49, 48, 48, 48, 48, 49] = 100001 := by decide
-  show mantissa [49] [] * (10 : Rat) ^ (Exponent.value ⟨false, .none, [49, 48, 48, 48, 48, 49]⟩) ≠ 1
-  have hv : Exponent.value ⟨false, .none, [49, 48, 48, 48, 48, 49]⟩ = ((100001 : Nat) : Int) := by
-    simp [Exponent.value, b]
-  have z : digitsVal 10 [] = 0 := rfl
-  have nz : nDigits [] = 0 := rfl
-  have hm : mantissa [49] [] = 1 := by
-    simp only [mantissa, a, z, nz]
-    simp; grind
-  rw [hv, hm, Rat.zpow_natCast, Rat.one_mul]
-  intro h
-  have e := (Rat.natCast_pow 10 100001).symm
-  rw [Rat.natCast_ofNat] at e
-  rw [e] at h
-  have h' : (10 ^ (100001 : Nat) : Nat) = 1 := Rat.natCast_inj.1 h
-  have := Nat.one_lt_pow (a := 10) (n := 100001) (by decide) (by decide)
-  omega
+/-- `1e100001` (outside the exponent window) is rejected -/
+theorem literal_exponent_rejected :
+    litValue (Lit.fExp [49] ⟨false, .none, [49, 48, 48, 48, 48, 49]⟩).spell = .err := by
+  decide
+
+/-- `0K` is accepted with value 0 -/
+theorem literal_bare_zero_ok :
+    litValue (Lit.si [48] none ⟨.K, false⟩).spell = .ok ⟨.int, ⟨0, 0⟩⟩ := by
+  decide
 
 /-- `12345678901234567890123456789012345678K` is silently rounded to 34 digits -/
 theorem literal_false_round :
